@@ -15,6 +15,17 @@ use object_store::{path::Path, *};
 use std::collections::{BTreeMap, HashSet};
 use vh_common::{ModelProc, Rng, hex};
 
+/// One driver request, counted by model op and answer class (branch coverage of the model under the
+/// correspondence run; lands in the evidence histogram as `model:<op>:<class>`).
+pub fn ask(m: &mut ModelProc, out: &mut Outcome, line: &str) -> String {
+    let ans = m.ask(line);
+    let op = line.split(' ').next().unwrap_or("?");
+    let first = ans.split(' ').next().unwrap_or("");
+    let class = if first.starts_with("ok") || first.starts_with("err") { first } else { "value" };
+    out.hit(&format!("model:{op}:{class}"));
+    ans
+}
+
 pub fn unhex(s: &str) -> Option<Vec<u8>> {
     if s.len() % 2 != 0 {
         return None;
@@ -49,6 +60,23 @@ pub fn maad_line(loc: &str, d: &MetaDoc) -> String {
         opt_s(&d.g),
         opt_n(&d.m)
     )
+}
+
+fn opt_b(o: &Option<Vec<u8>>) -> String {
+    match o {
+        None => "-".into(),
+        Some(b) => format!("={}", hex(b)),
+    }
+}
+
+pub fn cbor_line(d: &MetaDoc) -> String {
+    let tags = if d.t.is_empty() { "-".to_string() } else { d.t.iter().map(|t| hex(t)).collect::<Vec<_>>().join(",") };
+    format!("cbor {} {} {} {} {} {} {} {} {} {} {} {}", d.s, opt_s(&d.e), opt_s(&d.o), opt_s(&d.v), hex(&d.n), opt_n(&d.c), opt_n(&d.av), tags, opt_b(&d.an), opt_b(&d.at), opt_s(&d.g), opt_n(&d.m))
+}
+
+pub fn shape_of(d: &MetaDoc, payload_len: usize) -> String {
+    let b = |x: bool| x as u8;
+    format!("s={} ntags={} c={} av={} o={} v={} an={} at={} g={} m={} payload={}", d.s, d.t.len(), opt_n(&d.c), opt_n(&d.av), b(d.o.is_some()), b(d.v.is_some()), b(d.an.is_some()), b(d.at.is_some()), b(d.g.is_some()), b(d.m.is_some()), payload_len)
 }
 
 /// Independent re-implementation of `derive_gcm_nonce` (oracle side: nonce-uniqueness check).
@@ -214,12 +242,17 @@ pub async fn check_world(w: &mut World, rng: &mut Rng, mut model: Option<&mut Mo
                 continue;
             }
         };
-        let c = doc.c.unwrap_or(w.chunk).max(1);
+        // the chunk size the reader uses: the model's `read_chunk_size` when a driver is attached
+        let c = match model.as_deref_mut() {
+            Some(m) => ask(m, out, &format!("rcs {} {}", w.chunk, opt_n(&doc.c))).parse::<u64>().unwrap_or(0).max(1),
+            None => doc.c.filter(|c| *c > 0).unwrap_or(w.chunk).max(1),
+        };
+        let legacy_aad = doc.av == Some(0) || (doc.av.is_none() && !(doc.an.is_some() && doc.at.is_some()));
         let payload = snap.get(&t.payload_path).cloned().unwrap_or_default();
 
         // -- structure the oracle expects of a fresh write ------------------------------------------
         let n_chunks = size.div_ceil(c);
-        if doc.s != size || doc.t.len() as u64 != n_chunks || payload.len() as u64 != size || doc.an.is_none() || doc.at.is_none() || doc.g.is_none() {
+        if !t.legacy && (doc.s != size || doc.t.len() as u64 != n_chunks || payload.len() as u64 != size || doc.an.is_none() || doc.at.is_none() || doc.g.is_none()) {
             out.fail(Failure::new(
                 "clean:layout",
                 "committed document/payload do not have the sealed generation layout",
@@ -231,9 +264,10 @@ pub async fn check_world(w: &mut World, rng: &mut Rng, mut model: Option<&mut Mo
 
         // -- (1) every tag verifies under the model's nonce and AAD ---------------------------------
         if let Some(m) = model.as_deref_mut() {
-            let aad = unhex(&m.ask(&maad_line(&loc, &doc)));
+            let aad = unhex(&ask(m, out, &maad_line(&loc, &doc)));
             let ok = match (&aad, &doc.an, &doc.at) {
                 (Some(aad), Some(an), Some(at)) => gcm.open(an, aad, &[], at).is_some(),
+                (Some(_), None, None) => t.legacy, // genuine unsealed legacy document: nothing to verify
                 _ => false,
             };
             out.model_compared += 1;
@@ -252,8 +286,8 @@ pub async fn check_world(w: &mut World, rng: &mut Rng, mut model: Option<&mut Mo
                 if e > payload.len() || (i as usize) >= doc.t.len() {
                     break;
                 }
-                let nonce = unhex(&m.ask(&format!("nonce {} {}", hex(&doc.n), i)));
-                let caad = unhex(&m.ask(&format!("caad {c} {i}")));
+                let nonce = unhex(&ask(m, out, &format!("nonce {} {}", hex(&doc.n), i)));
+                let caad = if legacy_aad { Some(vec![]) } else { unhex(&ask(m, out, &format!("caad {c} {i}"))) };
                 let pt = match (&nonce, &caad) {
                     (Some(n), Some(a)) => gcm.open(n, a, &payload[s..e], &doc.t[i as usize]),
                     _ => None,
@@ -311,7 +345,7 @@ pub async fn check_world(w: &mut World, rng: &mut Rng, mut model: Option<&mut Mo
                 out.hit(if o.err.is_some() { "get:err" } else if head { "get:head" } else { "get:ok" });
                 // model
                 if let Some(m) = model.as_deref_mut() {
-                    let ans = m.ask(&format!("plan {size} {c} {} {}", r.token(), head as u8));
+                    let ans = ask(m, out, &format!("plan {size} {c} {} {}", r.token(), head as u8));
                     let model_line = match ans.split(' ').collect::<Vec<_>>().as_slice() {
                         ["ok", s, e, rr, _si, _so, _len] => format!("ok {s} {e} {rr}"),
                         _ => ans.clone(),
@@ -377,7 +411,7 @@ pub async fn check_world(w: &mut World, rng: &mut Rng, mut model: Option<&mut Mo
                     && size <= 4096
                 {
                     let tok = rs.iter().map(|(s, e)| format!("{s}:{e}")).collect::<Vec<_>>().join(",");
-                    let ans = m.ask(&format!("ranges {size} {c} 0+{size} {tok}"));
+                    let ans = ask(m, out, &format!("ranges {size} {c} 0+{size} {tok}"));
                     let impl_line = match &res {
                         Ok(v) => {
                             let outs: Vec<String> = rs.iter().zip(v).map(|((s, _), b)| if b.is_empty() { "-".into() } else { format!("{s}+{}", b.len()) }).collect();
@@ -467,7 +501,7 @@ pub async fn check_world(w: &mut World, rng: &mut Rng, mut model: Option<&mut Mo
                     (Some(_), Some(_)) => "stream:fault-err",
                 });
                 if let Some(m) = model.as_deref_mut() {
-                    let ans = m.ask(&format!("stream {size} {c} {} {} {} {}", rr_s / c, ps - rr_s, pe - ps, seg_token(&symbols, &segs)));
+                    let ans = ask(m, out, &format!("stream {size} {c} {} {} {} {}", rr_s / c, ps - rr_s, pe - ps, seg_token(&symbols, &segs)));
                     let impl_line = match o.err {
                         None => format!("ok {}", if o.bytes.is_empty() { "-".into() } else { format!("{ps}+{}", o.bytes.len()) }),
                         Some(e) => format!("{e} {}", if o.bytes.is_empty() { "-".into() } else { format!("{ps}+{}", o.bytes.len()) }),
@@ -488,6 +522,11 @@ pub async fn check_world(w: &mut World, rng: &mut Rng, mut model: Option<&mut Mo
         }
     }
 
+    // -- (4b) byte layout and writer shape of every commit the store made ---------------------------------
+    if let Some(m) = model.as_deref_mut() {
+        commit_layouts(w, m, out);
+    }
+
     // -- (5) reverse tie: what the model writes, the store reads ------------------------------------------
     if let Some(m) = model.as_deref_mut() {
         model_written_objects(w, rng, m, out).await;
@@ -498,6 +537,81 @@ pub async fn check_world(w: &mut World, rng: &mut Rng, mut model: Option<&mut Mo
     nonce_uniqueness(w, out);
 }
 
+/// Model vs implementation on what every commit handed to the backend:
+///  * the sidecar document byte for byte (`encodeDoc`, keys/omission rules generated from the serde attributes),
+///  * the backend keys (`metaPath`, `payloadPath`),
+///  * the shape of the document and of the ciphertext object for `put_opts` (`writeObject`), for multipart
+///    uploads incl. the sizes of the parts forwarded to the backend upload (`mpPutPart`/`mpComplete`; the
+///    driver also evaluates `multipart = put` on the instance), and for copies/renames (`copyMeta`: pinned
+///    chunk-AAD version, cleared legacy fields, verbatim nonce/tags/size).
+pub fn commit_layouts(w: &World, m: &mut ModelProc, out: &mut Outcome) {
+    for (hi, h) in w.history.iter().enumerate() {
+        let toks: Vec<&str> = h.op.split(' ').collect();
+        if toks[0] == "legacy" {
+            continue; // written by the harness, not by the store
+        }
+        let Ok(doc) = metadoc::decode(&h.meta_bytes) else { continue };
+        // document bytes
+        let ans = ask(m, out, &cbor_line(&doc));
+        out.model_compared += 1;
+        out.hit("tie:document-bytes");
+        if ans != hex(&h.meta_bytes) {
+            out.disagree(&format!("sidecar document of `{}` ({}) is not what the model's encodeDoc writes", h.loc, h.op), &ans, &hex(&h.meta_bytes));
+        }
+        // backend keys
+        let g = opt_s(&doc.g);
+        let ans = ask(m, out, &format!("paths {} {g}", hex(h.loc.as_bytes())));
+        let impl_paths = format!("{} {}", hex(format!("meta/{}", h.loc).as_bytes()), hex(h.payload_path.as_bytes()));
+        out.model_compared += 1;
+        out.hit("tie:backend-keys");
+        if ans != impl_paths || !h.writes.iter().any(|(p, _)| p == &format!("meta/{}", h.loc)) {
+            out.disagree(&format!("backend keys of `{}` ({})", h.loc, h.op), &ans, &impl_paths);
+        }
+        let body_writes: Vec<usize> = h.writes.iter().filter(|(p, _)| p == &h.payload_path).map(|(_, n)| *n).collect();
+        let foreign: Vec<&(String, usize)> = h.writes.iter().filter(|(p, _)| p != &h.payload_path && p != &format!("meta/{}", h.loc)).collect();
+        if !foreign.is_empty() {
+            out.disagree(&format!("`{}` wrote to backend keys the model does not know", h.op), "only the payload object and the commit point", &format!("{foreign:?}"));
+        }
+        let shape = shape_of(&doc, h.payload_bytes.len());
+        match toks[0] {
+            "put" | "puta" if h.plain.len() <= 4096 => {
+                let c = doc.c.unwrap_or(w.chunk);
+                let ans = ask(m, out, &format!("putshape {} {c}", h.plain.len()));
+                out.model_compared += 1;
+                out.hit("tie:put-shape");
+                if ans != shape || body_writes != vec![h.plain.len()] {
+                    out.disagree(&format!("shape of what `{}` wrote", h.op), &format!("{ans} bodies=[{}]", h.plain.len()), &format!("{shape} bodies={body_writes:?}"));
+                }
+            }
+            "mput" if h.plain.len() <= 4096 => {
+                let c = doc.c.unwrap_or(w.chunk);
+                let ans = ask(m, out, &format!("mput {c} {}", toks[3]));
+                let fwd = if body_writes.is_empty() { "-".to_string() } else { body_writes.iter().map(|n| n.to_string()).collect::<Vec<_>>().join(",") };
+                let impl_line = format!("fwd={fwd} {shape} eqput=1");
+                out.model_compared += 1;
+                out.hit("tie:multipart-shape");
+                if ans != impl_line {
+                    out.disagree(&format!("multipart upload `{}`: forwarded part sizes / document shape (or multipart != put in the model)", h.op), &ans, &impl_line);
+                }
+            }
+            "copy" | "rename" => {
+                // the source commit: the latest earlier one of the source key
+                let Some(src) = w.history[..hi].iter().rev().find(|x| x.loc == toks[1]) else { continue };
+                let Ok(sd) = metadoc::decode(&src.meta_bytes) else { continue };
+                let ans = ask(m, out, &format!("copyshape {} {} {}", opt_n(&sd.av), sd.an.is_some() as u8, sd.at.is_some() as u8));
+                let impl_line = format!("av={} o={} v={} g={} m={} an={} at={}", opt_n(&doc.av), doc.o.is_some() as u8, doc.v.is_some() as u8, doc.g.is_some() as u8, doc.m.is_some() as u8, doc.an.is_some() as u8, doc.at.is_some() as u8);
+                out.model_compared += 1;
+                out.hit("tie:copy-shape");
+                let verbatim = doc.s == sd.s && doc.n == sd.n && doc.t == sd.t && doc.c == sd.c && h.payload_bytes == src.payload_bytes && doc.e != sd.e && doc.g != sd.g;
+                if ans != impl_line || !verbatim {
+                    out.disagree(&format!("document of `{}` (source document av={:?})", h.op, sd.av), &format!("{ans} + size/nonce/tags/chunk size/ciphertext verbatim, e_tag and generation new"), &format!("{impl_line} verbatim={verbatim}"));
+                }
+            }
+            _ => {}
+        }
+    }
+}
+
 /// Reverse tie: objects *written by the model* (nonces, chunk AAD and metadata AAD from the Lean driver,
 /// AES-GCM from the `aes-gcm` crate, document encoded by the harness) must be readable through the real
 /// store. This reaches inputs the store's own writer never produces: a base nonce whose counter wraps
@@ -506,10 +620,16 @@ pub async fn check_world(w: &mut World, rng: &mut Rng, mut model: Option<&mut Mo
 pub async fn model_written_objects(w: &World, rng: &mut Rng, model: &mut ModelProc, out: &mut Outcome) {
     use cbor2::Value;
     let gcm = Gcm::new(w.key);
-    for variant in 0..6u64 {
+    for variant in 0..9u64 {
         let loc = format!("zz-model/{variant}");
-        let c = if variant == 4 { w.chunk } else { *rng.pick(&[1u64, 3, 8, 16]) };
-        let size = (rng.below(4 * c + 2)) as usize;
+        let doc_c: Option<u64> = match variant {
+            4 => None,
+            6 => Some(0), // a recorded chunk size of 0 falls back to the store's
+            _ => Some(*rng.pick(&[1u64, 3, 8, 16])),
+        };
+        // the chunk size the *reader* will use — asked of the model, then used to lay the object out
+        let c = ask(model, out, &format!("rcs {} {}", w.chunk, opt_n(&doc_c))).parse::<u64>().unwrap_or(1).max(1);
+        let size = if variant == 7 { (c + 1 + rng.below(3 * c)) as usize } else { (rng.below(4 * c + 2)) as usize };
         let plain = crate::world::data(rng.next_u64(), size);
         // counter part of the base nonce close to 2^64: chunk indices wrap it around
         let mut base = [0u8; 12];
@@ -525,10 +645,11 @@ pub async fn model_written_objects(w: &World, rng: &mut Rng, model: &mut ModelPr
             v: if variant == 2 { Some("inner-version".into()) } else { None },
             n: base.to_vec(),
             t: vec![],
-            c: if variant == 4 { None } else { Some(c) },
+            c: doc_c,
             av: match variant {
                 3 => Some(0),
                 5 => None, // sealed without av: bound AAD by default
+                8 => Some(5), // an AAD version the reader does not know
                 _ => Some(1),
             },
             an: None,
@@ -540,8 +661,8 @@ pub async fn model_written_objects(w: &World, rng: &mut Rng, model: &mut ModelPr
         let mut payload = Vec::new();
         let mut ok = true;
         for (i, ch) in plain.chunks(c as usize).enumerate() {
-            let nonce = unhex(&model.ask(&format!("nonce {} {i}", hex(&doc.n))));
-            let aad = if doc.av == Some(0) { Some(vec![]) } else { unhex(&model.ask(&format!("caad {c} {i}"))) };
+            let nonce = unhex(&ask(model, out, &format!("nonce {} {i}", hex(&doc.n))));
+            let aad = if doc.av == Some(0) { Some(vec![]) } else { unhex(&ask(model, out, &format!("caad {c} {i}"))) };
             match (nonce, aad) {
                 (Some(n), Some(a)) => match gcm.seal(&n, &a, ch) {
                     Some((ct, tag)) => {
@@ -557,7 +678,10 @@ pub async fn model_written_objects(w: &World, rng: &mut Rng, model: &mut ModelPr
         for b in an.iter_mut() {
             *b = rng.next_u64() as u8;
         }
-        let aad = unhex(&model.ask(&maad_line(&loc, &doc)));
+        if variant == 7 {
+            doc.t.pop(); // one chunk tag short: the reader must stop at the chunk without a tag
+        }
+        let aad = unhex(&ask(model, out, &maad_line(&loc, &doc)));
         let Some((_, at)) = aad.as_ref().and_then(|a| gcm.seal(&an, a, &[])) else {
             out.disagree("driver did not answer for a model-written object", "hex", "?");
             continue;
@@ -597,6 +721,24 @@ pub async fn model_written_objects(w: &World, rng: &mut Rng, model: &mut ModelPr
         w.raw_put(&format!("meta/{loc}"), &meta_bytes).await;
         let cold = w.cold();
         let o = get_collect(&cold, &loc, GetOptions::new()).await;
+        if variant == 7 || variant == 8 {
+            // error branches of the model reached through a *sealed* document
+            let model_line = if variant == 7 {
+                ask(model, out, &format!("stream {size} {c} 0 0 {size} 0+{size} tags={}", doc.t.len()))
+            } else {
+                format!("{} -", ask(model, out, &format!("verify {} 1 1 5 {} 1 1 head", w.strict as u8, doc.g.is_some() as u8)))
+            };
+            let impl_line = format!("{} {}", o.err.unwrap_or("ok"), if o.bytes.is_empty() { "-".to_string() } else { format!("0+{}", o.bytes.len()) });
+            out.model_compared += 1;
+            out.hit(&format!("tie:model-written-object:variant{variant}"));
+            out.eval(&format!("model-written {variant} {size} {c}"), true);
+            if model_line != impl_line || (o.err.is_none()) || o.bytes[..] != plain[..o.bytes.len().min(plain.len())] {
+                out.disagree(&format!("sealed document with {} (size={size} chunk={c})", if variant == 7 { "one chunk tag missing" } else { "chunk-AAD version 5" }), &model_line, &impl_line);
+            }
+            w.raw_delete(&payload_path).await;
+            w.raw_delete(&format!("meta/{loc}")).await;
+            continue;
+        }
         let mut impl_line = match o.err {
             None if o.bytes == plain => "ok".to_string(),
             None => "ok-but-other-bytes".to_string(),
@@ -645,11 +787,20 @@ pub fn scan_plaintext(w: &World, snap: &BTreeMap<String, Vec<u8>>, out: &mut Out
             windows.insert(win.try_into().unwrap());
         }
     }
+    // the secret key must not reach the backend either
+    let mut key_windows: HashSet<[u8; W]> = HashSet::new();
+    for win in w.key.windows(W) {
+        key_windows.insert(win.try_into().unwrap());
+    }
     let writes = w.rec.shared.writes.lock().unwrap();
-    let mut scan = |what: &str, bytes: &[u8], out: &mut Outcome| {
+    let scan = |what: &str, bytes: &[u8], out: &mut Outcome| {
         out.hit_n("scan:backend-bytes", bytes.len() as u64);
         for (i, win) in bytes.windows(W).enumerate() {
             let k: [u8; W] = win.try_into().unwrap();
+            if key_windows.contains(&k) {
+                out.fail(Failure::new("leak:key-window", &format!("{W} consecutive bytes of the AES key appear in {what} at offset {i}"), None, "no key material in anything handed to the backend", &hex(win)));
+                return;
+            }
             if windows.contains(&k) {
                 out.fail(Failure::new("leak:plaintext-window", &format!("{W} consecutive plaintext bytes appear in backend object {what} at offset {i}"), None, "no plaintext window in any backend byte", &hex(win)));
                 return;
@@ -658,6 +809,18 @@ pub fn scan_plaintext(w: &World, snap: &BTreeMap<String, Vec<u8>>, out: &mut Out
     };
     for (path, bytes) in writes.iter() {
         scan(path, bytes, out);
+        // the backend key itself, and (below) attributes / tags that travel with a write
+        scan(&format!("the path {path}"), path.as_bytes(), out);
+    }
+    for (path, side) in w.rec.shared.side.lock().unwrap().iter() {
+        scan(&format!("the attributes/tags of the write to {path}"), side.as_bytes(), out);
+        // the Debug text escapes bytes; also look for hex / decimal renderings of a plaintext window
+        for p in &w.plaintexts {
+            if p.len() >= W && (side.contains(&hex(&p[..W])) || side.contains(&format!("{:?}", &p[..W]))) {
+                out.fail(Failure::new("leak:plaintext-window", &format!("a rendering of the first {W} plaintext bytes appears in the attributes/tags of the write to {path}"), None, "no plaintext in attributes/tags", side));
+            }
+        }
+        out.hit("scan:side-channels");
     }
     for (path, bytes) in snap {
         scan(path, bytes, out);
@@ -685,7 +848,8 @@ pub fn nonce_uniqueness(w: &World, out: &mut Outcome) {
             let mut aad = b"anda_object_store.encrypted.chunk.v1".to_vec();
             aad.extend_from_slice(&(c as u64).to_le_bytes());
             aad.extend_from_slice(&(i as u64).to_le_bytes());
-            if doc.av != Some(0) && gcm.open(&nonce, &aad, &h.payload_bytes[s..e], tag).is_none() {
+            let legacy_aad = doc.av == Some(0) || (doc.av.is_none() && !(doc.an.is_some() && doc.at.is_some()));
+            if !legacy_aad && gcm.open(&nonce, &aad, &h.payload_bytes[s..e], tag).is_none() {
                 out.fail(Failure::new("nonce:not-rederivable", &format!("chunk {i} of `{}` (chunk size {c}) does not open under nonce = base + {i}: the nonces in use cannot be re-derived, uniqueness cannot be established", h.loc), None, "opens under the derived nonce", "tag mismatch"));
             }
             let sealed = (h.payload_bytes[s..e].to_vec(), tag.clone(), format!("chunk {i} of {}", h.loc));
